@@ -65,6 +65,8 @@ func (e event) String() string {
 		return "pin-update(c3->c4)+unpin(c3)@" + e.At
 	case "pinexp":
 		return "pin(c5, expires in 3s)@" + e.At
+	case "latestart":
+		return "staging-peer-started-and-not-added-within-its-leader-timeout"
 	}
 	return e.Kind
 }
@@ -106,7 +108,7 @@ func (h history) shape() string {
 }
 
 func alphabet(n int) []event {
-	a := []event{{Kind: "pin", At: "L", C: 0}, {Kind: "updpin", At: "L"}, {Kind: "pinexp", At: "L"}, {Kind: "join", At: "L"}, {Kind: "rm", At: "L", Tgt: "absent"}, {Kind: "rm", At: "L", Tgt: "L"}, {Kind: "restart"}}
+	a := []event{{Kind: "pin", At: "L", C: 0}, {Kind: "updpin", At: "L"}, {Kind: "pinexp", At: "L"}, {Kind: "join", At: "L"}, {Kind: "rm", At: "L", Tgt: "absent"}, {Kind: "rm", At: "L", Tgt: "L"}, {Kind: "restart"}, {Kind: "latestart"}}
 	if n > 1 {
 		a = append(a,
 			event{Kind: "pin", At: "F", C: 1},
@@ -644,6 +646,43 @@ func (w *world) apply(e event) bool {
 		if _, err := os.Stat(f.rcfg.GetDataFolder()); err == nil {
 			w.fail("left-peer-kept-consensus-data", "member %d left the cluster on shutdown but still has its raft data folder", f.idx)
 		}
+	case "latestart":
+		// a new peer starts as a staging peer (what a joining daemon does) and
+		// nobody adds it before its wait_for_leader_timeout (20s) has passed:
+		// if it ever reports itself ready, it holds the cluster's pinset
+		if w.next >= len(w.hosts) {
+			return false
+		}
+		idx := w.next
+		w.next++
+		m, err := w.startMember(idx, nil, true, fmt.Sprintf("%s/m%d", w.scratch, idx))
+		if err != nil {
+			w.fail("join-start-failed", "%v", err)
+			return false
+		}
+		w.members = append(w.members, m)
+		m.alive = false // never a member of the peerset
+		ready := false
+		select {
+		case <-m.p.Parts.Consensus.Ready(ctx):
+			ready = true
+		case <-time.After(45 * time.Second):
+		}
+		if ready {
+			got := map[string]string{}
+			if st, err := m.p.Parts.Consensus.State(ctx); err == nil {
+				if pins, err := st.List(ctx); err == nil {
+					for _, p := range pins {
+						got[p.Cid.String()] = noAlloc(p)
+					}
+				}
+			}
+			if fmt.Sprint(got) != fmt.Sprint(w.refPins) {
+				w.fail("ready-before-synced", "a staging peer that nobody added reported itself ready holding %v; the cluster's pinset is %v", got, w.refPins)
+			}
+		}
+		m.p.C.Shutdown(ctx)
+		w.settle(time.Second)
 	case "restart":
 		m := w.pick("F")
 		if m == nil {
